@@ -63,6 +63,16 @@ CHECKS = {
             'Trusts TLC, the chunk renderer, and the independent line classifier for shipped files. .map/.mapping content is bound '
             'only through the shared header rule. Lines like "} {" (negative brace depth) are outside the grammar.',
             'DESIGN.md section 5 / C13'),
+    'C06': ('model_checking',
+            'TLA+ spec SubIso (declarative induced embeddings, Aut(pattern), classes modulo Aut, maximum common induced '
+            'subgraphs); TLC evaluates JudgeIso/JudgeLcs on the outputs of the real ISMAGS for an exhaustive small scope of '
+            'graph pairs and structured families, with a symmetry cache shared across matchers',
+            'Bounded-exhaustive: every labelled pattern on <=3(4) nodes against every labelled graph on <=4(5) nodes, plain and '
+            'with 2 node / 2 edge colours, both searches, symmetry off and on; soundness, exactly-once, one representative per '
+            'class and maximum-common-subgraph coverage are decided by TLC from the definitions, not by a second matcher.',
+            'Trusts TLC. Equality is equality of an integer colour (transitive). The empty answer when nothing is common is '
+            'not constrained.',
+            'DESIGN.md section 5 / C06'),
 }
 
 PENDING = {}
